@@ -283,7 +283,8 @@ pub fn run(thorough: bool) -> Outcome {
     }
     // (4) other frames around: PING / unknown type / DATA / stream-level WINDOW_UPDATE before and between
     for pre in [vec![], vec![F::Ping], vec![F::Unknown(0x20, 0, 5)], vec![F::Wu(0, 1000, false)], vec![F::Prio(7, false, 0, 15)], vec![F::Wu(3, 5, false), F::Ping]] {
-        for mid in [vec![], vec![F::Ping], vec![F::Unknown(0xfe, 1, 3), F::Data(1, 10)]] {
+        // incl. frames of exactly the maximum payload size 16384 (legal, RFC 7540 section 4.2) and one byte below
+        for mid in [vec![], vec![F::Ping], vec![F::Unknown(0xfe, 1, 3), F::Data(1, 10)], vec![F::Data(1, 16384)], vec![F::Unknown(0x21, 0, 16383), F::Data(1, 16384)]] {
             for preface in [true, false] {
                 let mut frames = pre.clone();
                 frames.push(F::Settings(vec![(1, 65536), (3, 1000), (4, 6291456)]));
